@@ -143,7 +143,9 @@ impl<T, D: Data<Elem = f64>> Fit<ArrayBase<D, Ix2>, T, ReductionError> for PcaPa
         }
 
         Ok(Pca {
-            embedding: v_t,
+            // keep the components in standard layout, the layout they have after a (de)serialisation
+            // round trip: sums over their rows then round the same way in both copies
+            embedding: v_t.as_standard_layout().into_owned(),
             sigma,
             mean,
             n_samples: dataset.nsamples(),
